@@ -35,6 +35,11 @@ Record ctype := mkCt { ct_kind : N; ct_width : N }.
 Definition ctype_eq_dec : forall a b : ctype, {a = b} + {a <> b}.
 Proof. decide equality; apply N.eq_dec. Defined.
 
+Global Arguments nport_eq_dec : simpl never.
+Global Arguments onport_eq_dec : simpl never.
+Global Arguments oN_eq_dec : simpl never.
+Global Arguments ctype_eq_dec : simpl never.
+
 Definition default_ctype := mkCt 1 0.        (* ConnectionType{}: BITVEC, width 0 *)
 
 (* ------------------------------------------------------------------------------------------ *)
